@@ -21,6 +21,15 @@ TREES = {"GeneticProgramming", "SelfCGP", "PDPGP"}
 IMPORTS = "From TF Require Import Base EALoop LoopCheck."
 
 
+def num(v):
+    """exact Python number of a scalar: integers stay integers (int64 objectives beyond 2^53 must not be rounded)"""
+    if isinstance(v, (bool, np.bool_)):
+        return int(v)
+    if isinstance(v, (int, np.integer)):
+        return int(v)
+    return float(v)
+
+
 def ident(x):
     """canonical hashable identity of a genotype / phenotype"""
     if isinstance(x, np.ndarray):
@@ -75,6 +84,10 @@ def random_config(rng, kind, **force):
         cfg["objective"] = rng.choice(["onemax", "const", "plateau"])   # Objective maps trees to len(tree)
     if kind in ("DifferentialEvolution", "jDE", "SHADE") and rng.random() < 0.25:
         cfg["objective"], cfg["scale"] = "view", 1.0      # the objective returns a view of the population it was handed
+    # integer-valued objectives returned as int64 arrays with values beyond 2^53 (exact in int64, not in float64)
+    if kind in ("GeneticAlgorithm", "SelfCGA", "PDPGA", "DifferentialEvolution", "jDE") and rng.random() < 0.2:
+        cfg.update(intobj=(1 << 60) if rng.random() < 0.7 else -(1 << 61), scale=1.0, offset=0.0, opt_mode="none", buffer=False,
+                   objective=rng.choice(["onemax", "plateau", "weighted", "neg"]) if kind not in ("DifferentialEvolution", "jDE") else "plateau")
     cfg.update(force)
     return cfg
 
@@ -135,15 +148,15 @@ def observe(opt, obj, cfg):
     except Exception as e:  # pragma: no cover
         alias.append(f"alias-observation-failed: {e}")
     st = opt.get_stats()
-    return dict(pop_g=[ident(x) for x in pg], pop_ph=[ident(x) for x in pp], fitness=[float(v) for v in fi],
-                rec=(ident(rec_g), ident(rec_p), float(tf._fitness)), counter=int(tf._no_update_counter),
+    return dict(pop_g=[ident(x) for x in pg], pop_ph=[ident(x) for x in pp], fitness=[num(v) for v in fi],
+                rec=(ident(rec_g), ident(rec_p), num(tf._fitness)), counter=int(tf._no_update_counter),
                 calls=int(opt._calls), remains=int(opt.get_remains_calls()), n_batches=len(obj.batches),
                 hist_len={k: len(v) for k, v in st.items()}, alias=alias,
                 raw=(L.snap(pg), L.snap(pp), L.snap(fi)), stats_copy={k: [L.snap(e) for e in v] for k, v in st.items()})
 
 
 def _report_ident(r):
-    return tuple((k, float(v) if np.isscalar(v) else ident(v)) for k, v in sorted(r.items()))
+    return tuple((k, num(v) if np.isscalar(v) else ident(v)) for k, v in sorted(r.items()))
 
 
 def run_trace(cfg):
@@ -151,7 +164,8 @@ def run_trace(cfg):
     rng_init = _r.Random(cfg["seed"] ^ 0x5bd1e995)
     kind = cfg["kind"]
     off = cfg.get("offset", 0.0) if abs(cfg["scale"]) <= 2.0 and cfg["objective"] != "view" else 0.0   # keep values exact integers
-    obj = L.Objective(cfg["objective"], scale=cfg["scale"], offset=off, reuse_buffer=bool(cfg.get("buffer")))
+    obj = L.Objective(cfg["objective"], scale=cfg["scale"], offset=off, reuse_buffer=bool(cfg.get("buffer")),
+                      int_offset=cfg.get("intobj"))
     g2p = G2P(kind) if cfg["g2p"] else None
     snaps = []
     holder = {}
@@ -171,10 +185,10 @@ def run_trace(cfg):
     opt.fit()
     final = observe(opt, obj, cfg)
     kept_changed = [i for i, (r, was) in enumerate(kept) if _report_ident(r) != was]
-    sign = -1.0 if cfg["minimization"] else 1.0
+    sign = -1 if cfg["minimization"] else 1
     batches = []
     for X, v in obj.batches:
-        batches.append(dict(ph=[ident(x) for x in X], value=[float(t) for t in v], fit=[sign * float(t) for t in v]))
+        batches.append(dict(ph=[ident(x) for x in X], value=[num(t) for t in v], fit=[sign * num(t) for t in v]))
     return dict(cfg={k: v for k, v in cfg.items() if not k.startswith("_")}, batches=batches, g2p=(g2p.pairs if g2p else None),
                 snaps=snaps, final=final, stats=opt.get_stats(), opt=opt, obj=obj, init=init, init_before=init_before,
                 fittest=opt.get_fittest(), kept_reports=len(kept), kept_changed=kept_changed)
@@ -271,8 +285,8 @@ def coq_case(tr):
     hist = []
     for i in range(len(st.get("fitness", []))):
         pg, pp, fi = st["population_g"][i], st["population_ph"][i], st["fitness"][i]
-        rows = C.clist([triple(ident(g), ident(p), float(f)) for g, p, f in zip(pg, pp, fi)])
-        mx = triple(ident(st["max_g"][i]), ident(st["max_ph"][i]), float(st["max_fitness"][i]))
+        rows = C.clist([triple(ident(g), ident(p), num(f)) for g, p, f in zip(pg, pp, fi)])
+        mx = triple(ident(st["max_g"][i]), ident(st["max_ph"][i]), num(st["max_fitness"][i]))
         hist.append(f"({rows}, {mx})")
     pop = C.clist([triple(g, p, f) for g, p, f in zip(fin["pop_g"], fin["pop_ph"], fin["fitness"])])
     g2pt = C.clist([f"({C.cz(a)}, {C.cz(b)})" for a, b in sorted(g2p_tab.items())])
